@@ -25,7 +25,8 @@ func init() {
 		Level: "exploration",
 		Rule: "case = one generated valid emission configuration (1-6 periods of NoMinting/Linear/ExponentialStep, amounts log-uniform to 10^36) run under 4-6 block-time partitions " +
 			"(boundary-hugging +-1ns/1ms/1s, random, single jump, one block per boundary, 1ns bursts) on the real app BeginBlock; after every block cumulative minted (bank supply delta) is compared " +
-			"with floor of the exact big.Rat schedule; partitions are compared at the common horizon. Non-trivial: >=1 period boundary and >=1 step boundary crossed, >=1 block jumping >=2 boundaries, total minted>0, >=2 partitions. Distinct by configuration hash.",
+			"with floor of the exact big.Rat schedule; partitions are compared at the common horizon. Non-trivial: >=1 period boundary and >=1 step boundary crossed, >=1 block jumping >=2 boundaries, total minted>0, >=2 partitions. Distinct by configuration hash." +
+			" Probes (every 16th case each): long horizons (periods of 250-600 years, blocks up to 700 years after the start, expectations from Unix seconds and nanoseconds in math/big), the v2->v3 parameter migration in the middle of a schedule, an accepted governance update of the start time before the first block / another schedule run on a discarded branch of the state, a restart from an exported genesis in the middle of a schedule; an eighth of the cases park coins on the minter's own module account.",
 		Assumptions: []string{
 			"reference schedule (model/schedule.go) is the documented one: linear on millisecond-truncated time, exponential per step with in-step linear interpolation on nanoseconds",
 			"18-decimal rounding inside an exponential period may move a floor only when the exact value is within 1e-6 of an integer (counted as ambiguous, either neighbour accepted)",
